@@ -351,7 +351,7 @@ var Prop = pbt.Register(pbt.Prop[Case]{
 	Name: "TestProtoToJSON",
 	Rule: "generated proto3 schema + reference-encoded message (uint64/fixed64 >= 2^63, fixed32/uint32 >= 2^31, negative int32, non-finite floats, every supported map key kind, empty containers), repeated numeric fields also declared [packed = false], optionally with unknown fields injected at every message level; options Int642String, DisallowUnknownField, Do / DoInto with small buffers, optionally right after a rejected conversion of the truncated message; the returned document must stay intact during a second conversion of a same-shaped message with other text; output must be an error or valid JSON (strict reader: no duplicate members, nothing after the value) keyed by JSON names whose values equal the reference-decoded values (big.Int for integers, ParseFloat for floats, base64 for bytes, stringified map keys); non-trivial = a repeated field, a map field and a 64-bit/unsigned field present",
 	Gen: func(t *rapid.T) Case {
-		sc := pmodel.GenSchema(t, pmodel.GenOpts{Unpacked: true, AllKinds: rapid.IntRange(0, 2).Draw(t, "allKinds") == 0, KeyKinds: pmodel.SupportedKeyKinds})
+		sc := pmodel.GenSchema(t, pmodel.GenOpts{Unpacked: true, JSONNames: true, AllKinds: rapid.IntRange(0, 2).Draw(t, "allKinds") == 0, KeyKinds: pmodel.SupportedKeyKinds})
 		comp, err := pmodel.Compile(sc.Render(), sc.Main)
 		if err != nil {
 			t.Fatalf("generator produced an invalid schema: %v", err)
@@ -368,3 +368,59 @@ var Prop = pbt.Register(pbt.Prop[Case]{
 })
 
 func TestProtoToJSON(t *testing.T) { pbt.Run(t, Prop) }
+
+// ---------------------------------------------------------------------------
+// capacity sweep: the document p2j writes must not depend on the capacity of the caller's buffer
+
+func checkSweep(c *pbt.Ctx, cs Case) {
+	comp, err := pmodel.Compile(cs.Schema.Render(), cs.Schema.Main)
+	if err != nil || comp.SvcErr != nil {
+		c.Failf("harness-schema", "schema rejected: %v %v", err, comp.SvcErr)
+	}
+	md := comp.Msg("pkg.Root")
+	in := cs.Msg
+	if cs.Unknown != 0 {
+		in = pmodel.InjectUnknown(md, cs.Msg, cs.Unknown)
+	}
+	desc := comp.Svc.LookupMethodByName("Call").Input()
+	cv := p2j.NewBinaryConv(conv.Options{Int642String: cs.Int642Str, DisallowUnknownField: cs.Disallow})
+	src := append(make([]byte, 0, len(in)), in...)
+	big := make([]byte, 0, 1<<20)
+	var err0 error
+	if !c.Protect("", func() { err0 = cv.DoInto(context.Background(), desc, src, &big) }) {
+		return
+	}
+	hi := len(big) + 40
+	if hi > 2600 {
+		hi = 2600
+	}
+	c.Step("p2j.DoInto with every capacity 0..%d (large-buffer result: %d bytes, err=%v)", hi, len(big), err0)
+	for capn := 0; capn <= hi; capn++ {
+		buf := make([]byte, 0, capn)
+		var e error
+		if !c.Protect("", func() { e = cv.DoInto(context.Background(), desc, src, &buf) }) {
+			return
+		}
+		if (e == nil) != (err0 == nil) || (e == nil && !bytes.Equal(buf, big)) {
+			if c.Fail("", "capacity-dependent", "p2j.DoInto with capacity %d: err=%v, %d bytes; with a large buffer: err=%v, %d bytes\n%s\nvs\n%s", capn, e, len(buf), err0, len(big), buf, big) {
+				return
+			}
+		}
+	}
+	if !bytes.Equal(src, in) {
+		c.Failf("input-modified", "p2j.DoInto modified its input")
+	}
+	c.NonTrivial()
+	if err0 != nil {
+		c.Class("rejected")
+	}
+}
+
+var SweepProp = pbt.Register(pbt.Prop[Case]{
+	Name:  "TestP2JCapacitySweep",
+	Rule:  "the schemas, messages and option sets of TestProtoToJSON; p2j.DoInto into caller buffers of every capacity from 0 to the output size + 40 (at most 2600): error-ness and text must equal the conversion into a 1 MiB buffer, no panic; every case is non-trivial",
+	Gen:   Prop.Gen,
+	Check: checkSweep,
+})
+
+func TestP2JCapacitySweep(t *testing.T) { pbt.Run(t, SweepProp) }
